@@ -14,6 +14,7 @@ import Golib.Proof.C07Literal
 import Golib.Proof.C07Utf16
 import Golib.Proof.C07Embedded
 import Golib.Proof.C07Shape
+import Golib.Proof.C07Multi
 
 namespace Golib.C07
 
@@ -197,6 +198,30 @@ theorem c07_embedded_escape (pre post : Bytes) (h1 : 92 ∉ pre) (h2 : 92 ∉ po
       obtain ⟨t, ht'⟩ : ∃ t, valOf 16 Y = 0xdc00 + t := ⟨valOf 16 Y - 0xdc00, by omega⟩
       rw [hq', ht', utf16Dec_pair q t (by omega) (by omega), Nat.add_sub_cancel_left,
         Nat.add_sub_cancel_left]
+
+/-- Any number of escapes: if `s` consists of backslash-free runs and well-formed escapes of
+the codec (`Denotes c s out`: escapes may be adjacent to each other, to the start and to the
+end of the input; `WF` lists the well-formed escapes exactly as in `c07_embedded_escape`),
+every escape is replaced by what it denotes and every run is preserved byte for byte — for the
+`ToString` form and for the `[]byte` form with any `dst` at least as long as `src`. -/
+theorem c07_escape_sequence (c : Codec) (s out : Bytes) (h : Denotes c s out) :
+    parseToString c.body s = .ok out ∧
+    ∀ dst : Bytes, s.length ≤ dst.length →
+      ∃ n dst', parse c.body dst s = .ok (n, dst') ∧ dst'.take n = out := by
+  refine ⟨by rw [parseToString_eq c.bodySpec, denotes_parseFun h], fun dst hd => ?_⟩
+  obtain ⟨⟨n, dst', hp, -, ht⟩, -⟩ := c07_cursor_eq_fun c dst s hd
+  exact ⟨n, dst', hp, by rw [ht, denotes_parseFun h]⟩
+
+/-- Non-vacuity: `a\101\102b` (two adjacent octal escapes) denotes `aABb`; a surrogate pair
+directly followed by a BMP escape, `\uD83D\uDE00\u0041`, denotes `😀A`. -/
+example : Denotes .octal [97, 92, 49, 48, 49, 92, 49, 48, 50, 98] [97, 65, 66, 98] :=
+  .esc [97] _ _ _ _ (by decide) (.octal [49, 48, 49] rfl (by decide) (by decide))
+    (.esc [] _ _ _ _ (by decide) (.octal [49, 48, 50] rfl (by decide) (by decide)) (.lit [98] (by decide)))
+example : Denotes .utf16 [92, 117, 68, 56, 51, 68, 92, 117, 68, 69, 48, 48, 92, 117, 48, 48, 52, 49]
+    [240, 159, 152, 128, 65] :=
+  .esc [] _ _ _ _ (by decide)
+    (.pair [68, 56, 51, 68] [68, 69, 48, 48] rfl rfl (by decide) (by decide) (by decide) (by decide))
+    (.esc [] _ _ _ _ (by decide) (.bmp [48, 48, 52, 49] rfl (by decide) (by decide)) (.lit [] (by decide)))
 
 /-- Non-vacuity: `"ab" ++ "\\101" ++ "cd"`; the digits of a pair `\\uD83D\\uDE00`. -/
 example : (∀ c ∈ [49, 48, 49], isDigit 8 c = true) ∧ valOf 8 [49, 48, 49] = 65 ∧ 92 ∉ [97, 98] := by decide
